@@ -272,11 +272,13 @@ def run(ctx):
         gp = ThreadPoolExecutor(max_workers=3)
         gf = [(tag, gp.submit(tlc_gen, ctx, tag, cfg, sim)) for tag, cfg, sim in gen_list(quick)]
         gf.append(("scenarios", gp.submit(tlc_scenarios, ctx)))
+        conf = gp.submit((lambda c, q_: 0) if only_replay else confluence, ctx, quick)
         per_gen = {}
         for tag, f in gf:
             bs = f.result()
             per_gen[tag] = len(bs)
             behaviours += bs
+        n_conf = conf.result()
         gp.shutdown()
         # de-duplicate (simulation repeats short behaviours)
         seen, uniq = set(), []
@@ -301,6 +303,7 @@ def run(ctx):
     coverage = {"evaluations": res.get("evaluations", 0), "distinct_nontrivial": res.get("distinct_nontrivial", 0), "rule": RULE,
                 "samples": res.get("samples", [])[:3], "traces_validated_against_impl": res.get("evaluations", 0),
                 "exhaustive": summary["exhaustive"], "negatives": summary["negatives"], "behaviours_per_generator": per_gen,
+                "confluence_schedules": n_conf, "deviation_scenarios_bound": [s[0] for s in SCENARIOS],
                 "replay_stats": {k: v for k, v in stats.items() if not k.startswith("violations")}}
     return lib.finish(ctx, LEVEL, coverage, ASSUME)
 
